@@ -25,14 +25,26 @@ type ChainCfg struct {
 	Extra     string // extra yaml lines under options:
 	Problem   string // extra yaml lines inside the taint problem (sanitizers, validators)
 	TopLevel  string // extra top-level yaml
+	// TwoProblems splits the specification into two taint-tracking problems (sources Source / SourceB, same sinks).
+	TwoProblems bool
 }
 
 // YAML renders the configuration file.
 func (c ChainCfg) YAML() string {
 	var sb strings.Builder
-	sb.WriteString("taint-tracking-problems:\n  - sources:\n      - package: \"vprog/rt$\"\n        method: \"^Source[B]?$\"\n")
-	sb.WriteString("    sinks:\n      - package: \"vprog/rt$\"\n        method: \"^Sink[S2]?$\"\n")
-	sb.WriteString(c.Problem)
+	if c.TwoProblems {
+		// two taint-tracking problems that share the sinks and differ in their sources
+		sb.WriteString("taint-tracking-problems:\n")
+		for _, src := range []string{"^Source$", "^SourceB$"} {
+			fmt.Fprintf(&sb, "  - sources:\n      - package: \"vprog/rt$\"\n        method: %q\n", src)
+			sb.WriteString("    sinks:\n      - package: \"vprog/rt$\"\n        method: \"^Sink[S2]?$\"\n")
+			sb.WriteString(c.Problem)
+		}
+	} else {
+		sb.WriteString("taint-tracking-problems:\n  - sources:\n      - package: \"vprog/rt$\"\n        method: \"^Source[B]?$\"\n")
+		sb.WriteString("    sinks:\n      - package: \"vprog/rt$\"\n        method: \"^Sink[S2]?$\"\n")
+		sb.WriteString(c.Problem)
+	}
 	sb.WriteString("slicing-problems:\n  - backtracepoints:\n      - package: \"vprog/rt$\"\n        method: \"^Sink[S2]?$\"\n")
 	sb.WriteString(c.TopLevel)
 	sb.WriteString("options:\n")
